@@ -52,7 +52,9 @@ def count_loc(class_node: Any, source: str) -> int:
     Returns:
         Number of code lines in class definition (blank and comment lines excluded)
     """
-    start_line = class_node.start_point[0]
+    # The class runs from its header (not from a decorator above it) to its end
+    header = next((child for child in class_node.children if child.type != "decorator"), class_node)
+    start_line = header.start_point[0]
     end_line = class_node.end_point[0]
     lines = source.split("\n")[start_line : end_line + 1]
 
